@@ -20,6 +20,8 @@ A leaf spec is a dict:
           translator partially evaluates `is None` / `is not None` tests)
   ret     result type
   cdiv    True: `/` between integers is C integer division (Cython with cdivision)
+  opaque  {"<source text of a call>": "<parameter name>"}: that call is not translated; its
+          value is the named parameter (a recorded contract, e.g. a group count)
 
 Supported subset: integer / float-integral literals, names, + - * / // % ** (small
 constant exponent), comparisons, and/or/not on tests, if/elif/else, min/max/abs,
@@ -28,6 +30,7 @@ Anything else makes the leaf *untranslatable*: a type-correct stub is emitted, t
 is listed in lean/Rsa/Gen/status.json, and run_check treats it as a broken obligation.
 """
 import ast
+from fractions import Fraction
 import importlib.util
 import json
 import os
@@ -70,6 +73,8 @@ def pseudo_name(node):
             return None if base is None else f'{base}_m{idx.operand.value}'
         if base is not None and isinstance(idx, ast.Constant) and isinstance(idx.value, int):
             return f'{base}_{idx.value}'
+        if base is not None and isinstance(idx, ast.Name):
+            return f'{base}_{idx.id}'
         return None
     if isinstance(node, ast.Call) and isinstance(node.func, ast.Name) and node.func.id == 'len' \
             and len(node.args) == 1:
@@ -110,6 +115,11 @@ class Tr:
                 return self.lit(e.value, want)
             if isinstance(e.value, float) and e.value == int(e.value):
                 return self.lit(int(e.value), 'A')
+            if isinstance(e.value, float):
+                # a decimal literal is read as the decimal fraction the programmer wrote
+                fr = Fraction(repr(e.value))
+                num = self.lit(fr.numerator, 'A')
+                return (f'({num[0]} / (({fr.denominator} : Nat) : α))', 'A')
             raise Untranslatable(f'literal {e.value!r}')
         if isinstance(e, ast.UnaryOp) and isinstance(e.op, ast.USub):
             t, ty = self.expr(e.operand, env, want)
@@ -216,6 +226,23 @@ class Tr:
 
     def call(self, e, env, want):
         name = call_name(e)
+        # spec['opaque']: {"<source text of a call>": "<parameter name>"} — the call is not
+        # translated, its value is the named parameter (an explicit contract of the leaf)
+        text = ast.unparse(e)
+        opaque = self.spec.get('opaque', {})
+        if text in opaque and opaque[text] in env and env[opaque[text]] is not NONE:
+            return self.coerce((pn_lean(opaque[text]), env[opaque[text]]), want)
+        if name in ('np.floor', 'int', 'math.floor') and len(e.args) == 1 and not e.keywords \
+                and isinstance(e.args[0], ast.BinOp) and isinstance(e.args[0].op, ast.Div):
+            try:
+                a = self.expr(e.args[0].left, env, 'Nat')
+                b = self.expr(e.args[0].right, env, 'Nat')
+            except Untranslatable:
+                a = b = None
+            if a is not None and a is not NONE and b is not NONE \
+                    and a[1] == 'Nat' and b[1] == 'Nat':
+                # floor (and truncation) of a quotient of naturals = natural division
+                return (f'({a[0]} / {b[0]})', 'Nat')
         if name in ('max', 'np.maximum', 'min', 'np.minimum') and len(e.args) == 2 and not e.keywords:
             a = self.expr(e.args[0], env, want)
             b = self.expr(e.args[1], env, want)
@@ -430,7 +457,7 @@ def translate_leaf(spec):
 
 
 def emit(prop, leaves):
-    out = [f'/- GENERATED by harness/py2lean.py from {REPO_SRC} — do not edit. -/',
+    out = ['/- GENERATED by harness/py2lean.py from the source tree under check (default /repo) — do not edit. -/',
            'import Rsa.Core.Num', 'import Rsa.Core.GenPrelude', '',
            f'namespace Rsa.Gen.{prop}', '']
     status = {}
